@@ -659,15 +659,35 @@ impl InputValidator {
             });
         }
 
+        // Only the host decides where a request goes: text in the path (a hash
+        // that ends in "10" in front of ".index") or inside a public name
+        // ("cdn10.example.com") says nothing about it
+        let rest = url.split_once("://").map_or("", |(_, rest)| rest);
+        let authority = rest.split(['/', '?', '#']).next().unwrap_or("");
+        let host_port = authority.rsplit_once('@').map_or(authority, |(_, h)| h);
+        let host = if let Some(v6) = host_port.strip_prefix('[') {
+            v6.split(']').next().unwrap_or("")
+        } else {
+            host_port.split(':').next().unwrap_or("")
+        };
+
         // Prevent localhost/internal network access
-        if url.contains("localhost") || url.contains("127.0.0.1") || url.contains("::1") {
+        let v4 = host.parse::<std::net::Ipv4Addr>().ok();
+        let v6 = host.parse::<std::net::Ipv6Addr>().ok();
+        if host.is_empty()
+            || host.eq_ignore_ascii_case("localhost")
+            || v4.is_some_and(|ip| ip.is_loopback() || ip.is_unspecified())
+            || v6.is_some_and(|ip| ip.is_loopback() || ip.is_unspecified())
+        {
             return Err(StreamingError::Configuration {
                 reason: "Access to local resources is not permitted".to_string(),
             });
         }
 
-        // Check for private IP ranges (basic check)
-        if url.contains("10.") || url.contains("192.168.") || url.contains("172.") {
+        // Private address ranges (10/8, 172.16/12, 192.168/16, link-local)
+        if v4.is_some_and(|ip| ip.is_private() || ip.is_link_local())
+            || v6.is_some_and(|ip| (ip.segments()[0] & 0xfe00) == 0xfc00 || (ip.segments()[0] & 0xffc0) == 0xfe80)
+        {
             return Err(StreamingError::Configuration {
                 reason: "Access to private network ranges is not permitted".to_string(),
             });
